@@ -455,8 +455,10 @@ static void run_expr(const std::string &rec, int wfd)
     // ---- the property on the library's outputs
     if (vok && pok && rbits(v) != rbits(p))
         oracle += " pattern-visitor-differs";
-    if (vok && fok && rbits(v) != rbits(f))
+    if (vok && (!fok || rbits(v) != rbits(f)))
         oracle += " evalf-differs";
+    if (vok && !pok)
+        oracle += " pattern-visitor-differs";
     if (vok != sok || (vok && sok && rbits(v) != rbits(s))) {
         // classes the single-dispatch table does not have are reported too: the visitor accepts them
         oracle += " dispatch:" + (sok ? rbits(s) : std::string("exn")) + "-vs-visitor:" + (vok ? rbits(v) : std::string("exn"));
